@@ -100,9 +100,30 @@ func exec(p prog, c *hx.Case) error {
 	defer loc.ReleaseAll()
 	events := make(chan string, 256)
 	errc := make(chan error, 256)
-	retained := make(chan []uint64) // unbuffered, as the job creates it
+	// each incarnation of the job process has its own view of the storage and its
+	// own channels; a replaced incarnation is dead: what its goroutines still do
+	// reaches neither the storage nor anybody's channel
+	var retained chan []uint64
+	var client *coord.Client
+	stop := make(chan struct{})
+	defer close(stop)
 	newStore := func() *snapshots.Store {
-		s := snapshots.NewStore(&snapshots.NewStoreParams{FileStore: loc, SavepointsPath: "savepoints", CheckpointsPath: "checkpoints",
+		if client != nil {
+			client.Kill()
+			go func(old chan []uint64) {
+				for {
+					select {
+					case <-old:
+					case <-stop:
+						return
+					}
+				}
+			}(retained)
+		}
+		client = loc.Client()
+		retained = make(chan []uint64) // unbuffered, as the job creates it
+		errc = make(chan error, 256)
+		s := snapshots.NewStore(&snapshots.NewStoreParams{FileStore: client, SavepointsPath: "savepoints", CheckpointsPath: "checkpoints",
 			CheckpointEvents: events, ErrChan: errc, RetainedCheckpointsUpdated: retained})
 		s.RegisterSourceSplitter(&splitter{})
 		return s
@@ -158,8 +179,8 @@ func exec(p prog, c *hx.Case) error {
 		case "recv":
 			recvAll(200 * time.Microsecond)
 		case "restart":
-			// a restart while publications are in flight is a crash point; here the
-			// job restarts cleanly once everything in flight has landed
+			// the job process is replaced once what is in flight had time to land; what
+			// has not landed by then dies with the process (a crash point)
 			loc.SetHold("write", false)
 			loc.SetHold("remove", false)
 			recvAll(2 * time.Millisecond)
